@@ -274,4 +274,16 @@ def evaluate(c):
             'media %s used before by a model at f/4: pattern differs from the one over newly built media with the same constants' % name)
         canon.append('%s|shared|%s' % (und, name))
         nontriv.append(True)
+    # (7) a linear boundary moves with the antenna: structure and boundary shifted together along x (to negative
+    # coordinates and far to positive ones) give the same pattern
+    env0 = dict(media=[[13., 5e-3, 0., mid_l], [4., 1e-3, -2.]], boundary='linear')
+    _, g0 = pattern(cs, env0)
+    ev += 1
+    for d in (-(hi_l + 3.0), -2 * mid_l, 25.0):
+        sh = dict(cs, wires=[dict(w, p1=[w['p1'][0] + d, w['p1'][1], w['p1'][2]], p2=[w['p2'][0] + d, w['p2'][1], w['p2'][2]]) for w in cs['wires']])
+        _, g1 = pattern(sh, dict(media=[[13., 5e-3, 0., mid_l + d], [4., 1e-3, -2.]], boundary='linear'))
+        ev += 1
+        chk('SHIFT-LINEAR', float(np.abs(g1 - g0)[g0 > -200].max()), 1e-6, 'antenna and linear boundary shifted together by %.3g m along x: pattern changes' % d)
+        canon.append('%s|shift|%.3g' % (und, d))
+        nontriv.append(True)
     return dict(viol=viol[:8], canon=canon, nontriv=nontriv, trans=ev, traces=len(canon), evals=ev, dev=worst, outcome='gnd=%d' % len(gnd), note=wn)
